@@ -87,6 +87,7 @@ func (c *Collection) view(
 		return
 	}
 	// Update the view index if it's out of date:
+	verifPoint("view.stalecheck", viewName)
 	if view.lastCas != lastCas {
 		var staleVal any
 		if jsonParams != nil {
@@ -94,6 +95,7 @@ func (c *Collection) view(
 		}
 		if staleVal == "updateAfter" {
 			go func() {
+				verifPoint("view.updateafter", viewName)
 				debug("\t{updating view in background...}")
 				_, _ = c.updateView(ctx, designDoc, viewName)
 				debug("\t{...done updating view in background}")
